@@ -101,6 +101,19 @@ func limitsPrograms(r *rand.Rand, L int) []*Program {
 		add("format-misc "+f, Def("r", Call(Id("format"), Str(f), Str("héllo"), Str("x"))), Def("q", Call(Id("format"), Str(f), Int(233), Int(65))),
 			Def("w", Call(Id("format"), Str(f), Float16(24), Bool(true))))
 	}
+	// signed and zero-padded numbers: sign, padding and digits are written by separate writers, so every flag set is driven with
+	// widths around the maximum for negative and positive operands (the sign is written first, the digits last)
+	for _, fl := range []string{"0", "+0", " 0", "+", "-", "-+"} {
+		for w := L - 2; w <= L+2; w++ {
+			for _, vb := range []struct{ verb string; neg, pos *Node }{
+				{"d", Un("-", Int(15)), Int(15)}, {".2f", Un("-", Float16(24)), Float16(24)}, {".1e", Un("-", Float16(24)), Float16(24)},
+				{"x", Un("-", Int(255)), Int(255)}, {"g", Un("-", Float16(24)), Float16(24)}, {"o", Un("-", Int(8)), Int(8)},
+			} {
+				f := fmt.Sprintf("%%%s%d%s", fl, w, vb.verb)
+				add("format-signpad "+f, Def("r", Call(Id("format"), Str(f), vb.neg)), Def("q", Call(Id("format"), Str(f), vb.pos)))
+			}
+		}
+	}
 	// literals with multi-byte characters: the maximum counts bytes
 	for k := 1; k <= L; k++ {
 		b := ""
